@@ -36,4 +36,19 @@ theorem ARINC_accepted_exact (t : Packet) (buf : Bytes) (h : (Packet.unpack t bu
 /-- rejection is an exception (`struct.error` for a missing header, `Exception` for a count mismatch) -/
 example : (Packet.unpack Packet.fresh [2, 0, 0, 0, 0, 0, 0, 0, 0, 0, 0, 0]).2 = .error .generic := by rfl
 
+/-- review witnesses: one declared word with its 8 bytes present (and two declared, 16 present) accepted with as many
+    words returned; one declared with 16 present, one declared with 7 present, a 3-byte buffer: rejected -/
+example : (Packet.unpack Packet.fresh [1, 0, 0, 0, 1, 2, 3, 4, 5, 6, 7, 8]).2 = .ok () ∧
+    (Packet.unpack Packet.fresh [1, 0, 0, 0, 1, 2, 3, 4, 5, 6, 7, 8]).1.arincwords.length = 1 := ⟨rfl, rfl⟩
+example : (Packet.unpack Packet.fresh [2, 0, 0, 0, 1, 2, 3, 4, 5, 6, 7, 8, 9, 10, 11, 12, 13, 14, 15, 16]).2 = .ok () ∧
+    (Packet.unpack Packet.fresh [2, 0, 0, 0, 1, 2, 3, 4, 5, 6, 7, 8, 9, 10, 11, 12, 13, 14, 15, 16]).1.arincwords.length = 2 :=
+  ⟨rfl, rfl⟩
+example : (Packet.unpack Packet.fresh [1, 0, 0, 0, 1, 2, 3, 4, 5, 6, 7, 8, 9, 10, 11, 12, 13, 14, 15, 16]).2 =
+    .error .generic := by rfl
+example : (Packet.unpack Packet.fresh [1, 0, 0, 0, 1, 2, 3, 4, 5, 6, 7]).2 = .error .generic := by rfl
+example : (Packet.unpack Packet.fresh [1, 0, 0]).2 = .error .struct := by rfl
+/-- observation: up to 7 stray bytes after the last whole word are accepted and ignored (the count compared is
+    `(len − 4) / 8`, rounded down) -/
+example : (Packet.unpack Packet.fresh [1, 0, 0, 0, 1, 2, 3, 4, 5, 6, 7, 8, 9, 9, 9]).2 = .ok () := by rfl
+
 end Acra.Props.C09
